@@ -441,17 +441,15 @@ class QCOW2VTBackend(QCOW2Backend):
         logging.debug(
             f"Showing {cls.state_type()} internal states for vm {params['vms']}"
         )
-        states = set()
+        states = None
         for image_name in params.objects("images"):
             image_params = params.object_params(image_name)
             # TODO: refine method arguments by providing at least the image name directly
             image_params["images"] = image_name
-            image_states = super().show(image_params, object=object)
-            if len(states) == 0:
-                states = image_states
-            else:
-                states = states.intersect(image_states)
-        return states
+            image_states = set(super().show(image_params, object=object))
+            # a vm state is available only if all of the vm's images have it
+            states = image_states if states is None else states & image_states
+        return states or set()
 
     @classmethod
     def get(cls, params: Params, object: Any = None) -> None:
